@@ -2,7 +2,7 @@
    Statements about the RN instance of Model/Pbox.v (frechet_op), for any number of steps n,
    every selection of one point per focal step and every permutation coupling. *)
 From Coq Require Import Reals Lra List Permutation.
-From PUN Require Import Base.Num Base.Sort Model.Interval Model.Pbox Proofs.ListR Proofs.PboxWF Proofs.Frechet Proofs.Tight.
+From PUN Require Import Base.Num Base.Sort Model.Interval Model.Pbox Proofs.ListR Proofs.PboxWF Proofs.Frechet Proofs.Tight Proofs.Encl.
 From Coq Require Import Lia.
 Import ListNotations.
 Open Scope R_scope.
@@ -97,6 +97,31 @@ Corollary C02_add_left_attained n XL XR YL YR i :
 Proof. intros l1 l2 l3 l4 s1 s2 p1 p2 Hi.
   exact (frechet_left_attained Rplus (fun _ => True) ltac:(intros; lra) n XL XR YL YR l1 l2 l3 l4 s1 s2 p1 p2 ltac:(intros; exact I) ltac:(intros; exact I) i Hi). Qed.
 
+(* CONSEQUENCE: the Frechet result encloses the results under perfect, opposite and independent dependence, step by step
+   (any n; any operation nondecreasing on an upward-closed domain).  Perfect / opposite are the identity / reversing coupling of the
+   bounding selections; independence is compared at the order statistic k(n+1) of the n*n pairs, the one condensation keeps (C03). *)
+Theorem C02_encloses_perfect (op : R -> R -> R) (D : R -> Prop) n XL XR YL YR i :
+  (forall a a', D a -> a <= a' -> D a') -> (forall a a' b b', D a -> D b -> a <= a' -> b <= b' -> op a b <= op a' b') ->
+  length XL = n -> length XR = n -> length YL = n -> length YR = n -> Rsorted XL -> Rsorted XR -> Rsorted YL -> Rsorted YR ->
+  ple XL XR -> ple YL YR -> (forall j, (j < n)%nat -> D (nth j XL 0)) -> (forall j, (j < n)%nat -> D (nth j YL 0)) -> (i < n)%nat ->
+  nth i (fst (frechet_op RN op XL XR YL YR)) 0 <= nth i (fst (perfect_op RN op XL XR YL YR)) 0 /\
+  nth i (snd (perfect_op RN op XL XR YL YR)) 0 <= nth i (snd (frechet_op RN op XL XR YL YR)) 0.
+Proof. intros. eapply (frechet_encloses_perfect op D); eassumption. Qed.
+Theorem C02_encloses_opposite (op : R -> R -> R) (D : R -> Prop) n XL XR YL YR i :
+  (forall a a', D a -> a <= a' -> D a') -> (forall a a' b b', D a -> D b -> a <= a' -> b <= b' -> op a b <= op a' b') ->
+  length XL = n -> length XR = n -> length YL = n -> length YR = n -> Rsorted XL -> Rsorted XR -> Rsorted YL -> Rsorted YR ->
+  ple XL XR -> ple YL YR -> (forall j, (j < n)%nat -> D (nth j XL 0)) -> (forall j, (j < n)%nat -> D (nth j YL 0)) -> (i < n)%nat ->
+  nth i (fst (frechet_op RN op XL XR YL YR)) 0 <= nth i (fst (opposite_op RN op XL XR YL YR)) 0 /\
+  nth i (snd (opposite_op RN op XL XR YL YR)) 0 <= nth i (snd (frechet_op RN op XL XR YL YR)) 0.
+Proof. intros. eapply (frechet_encloses_opposite op D); eassumption. Qed.
+Theorem C02_encloses_independent (op : R -> R -> R) (D : R -> Prop) n XL XR YL YR i :
+  (forall a a', D a -> a <= a' -> D a') -> (forall a a' b b', D a -> D b -> a <= a' -> b <= b' -> op a b <= op a' b') ->
+  length XL = n -> length XR = n -> length YL = n -> length YR = n -> Rsorted XL -> Rsorted XR -> Rsorted YL -> Rsorted YR ->
+  ple XL XR -> ple YL YR -> (forall j, (j < n)%nat -> D (nth j XL 0)) -> (forall j, (j < n)%nat -> D (nth j YL 0)) -> (i < n)%nat ->
+  nth i (fst (frechet_op RN op XL XR YL YR)) 0 <= nth (i * (n + 1)) (fst (independent_op RN op XL XR YL YR)) 0 /\
+  nth (i * (n + 1)) (snd (independent_op RN op XL XR YL YR)) 0 <= nth i (snd (frechet_op RN op XL XR YL YR)) 0.
+Proof. intros. eapply (frechet_encloses_independent op D); eassumption. Qed.
+
 (* non-vacuity: a two-step instance with the swapping coupling *)
 Example C02_ex : nth 0 (fst (frechet_op RN Rplus [1; 2] [2; 3] [10; 20] [11; 21])) 0 = 11 /\
                  nth 1 (snd (frechet_op RN Rplus [1; 2] [2; 3] [10; 20] [11; 21])) 0 = 24.
@@ -116,3 +141,6 @@ Print Assumptions C02_mul_sound.
 Print Assumptions C02_left_pair.
 Print Assumptions C02_left_attained.
 Print Assumptions C02_right_attained.
+Print Assumptions C02_encloses_perfect.
+Print Assumptions C02_encloses_opposite.
+Print Assumptions C02_encloses_independent.
